@@ -24,11 +24,20 @@ def run_gen(w, op, cfg=None):
     after = w.fs.snapshot()
     changed = sorted(k for k in set(before) | set(after) if before.get(k) != after.get(k))
     wopens = [e[2] for e in out["fs_events"] if is_write_open(e)]
-    if not wopens and changed:
-        # written through a door SimFS does not interpose (os.open, a C extension): the
-        # snapshot still shows it; treat the changed files as the ones opened for writing
-        wopens = list(changed)
-    return out, before, after, changed, wopens
+    # The files this invocation produced, judged by effect: created or modified and still
+    # there afterwards (a write-to-temp-then-rename counts as its target); if nothing
+    # changed (identical regeneration) the files it opened for writing that exist.
+    produced = [c for c in changed if c in after]
+    if not produced:
+        renamed = {e[2]: e[3] for e in out["fs_events"] if e[1] == "rename"}
+        produced = sorted({renamed.get(p, p) for p in wopens} & set(after))
+    return out, before, after, changed, produced
+
+
+def game_files(paths):
+    """Generated game files among paths (auxiliary files - dotfiles, other suffixes - are the code's own business)."""
+    return sorted(p for p in set(paths) if p.startswith("inputs/") and p.endswith(".py")
+                  and not p.rsplit("/", 1)[-1].startswith("."))
 
 
 def ref_gen(ctx, op):
